@@ -24,7 +24,7 @@
      [k |-> "f_reqh", f, ms] [k |-> "f_req", f, ms, streamed, d, tm]
      [k |-> "f_resph", f, qms, ms] [k |-> "f_resp", f, qms, ms, streamed, d, tm] [k |-> "f_err", f, qms]
                                                flow f as the hooks see it (qms: markers of flow.request)
-     [k |-> "p_close", side] [k |-> "peer_error", side, exc] [k |-> "crashed", exc] [k |-> "end"]                  *)
+     [k |-> "p_close", side] [k |-> "c_goaway"] [k |-> "s_goaway"] [k |-> "peer_error", side, exc] [k |-> "crashed", exc] [k |-> "end"]                  *)
 EXTENDS Verif
 CONSTANTS NS             \* bound on stream indices
 
@@ -61,9 +61,15 @@ Stalled(m) == IF m.known /\ ~m.sdead /\ ~m.dead /\ m.waiting # <<>> /\ Open(m) <
               THEN <<"C05.queued_stream_stalled">> ELSE <<>>
 
 \* checked at the end (everything flushed, all windows opened): nothing complete may be missing at its destination
+Terminated(m, i) == m.cr[i].rst \/ m.cr[i].ended \/ m.cs[i].rst
 AtEnd(m) ==
   IF m.dead THEN <<>>
   ELSE IF Stalled(m) # <<>> THEN Stalled(m)
+  \* the server connection is gone: every stream that was waiting for it, or on it, must have been answered or reset
+  ELSE IF m.sdead /\ \E k \in 1..Len(m.waiting) : ~Terminated(m, m.waiting[k])
+       THEN <<"C05.queued_stream_lost", "server_closed">>
+  ELSE IF m.sdead /\ \E j \in Idx : m.src[j] # 0 /\ ~m.rr[j].ended /\ ~Terminated(m, m.src[j])
+       THEN <<"C05.reset_lost", "server_closed">>
   ELSE IF \E i \in Idx : m.dst[i] # 0 /\ m.cs[i].ended /\ ~m.cs[i].rst /\ ~m.sdead /\ ~m.rr[m.dst[i]].rst
                          /\ ~(m.sq[m.dst[i]].ended /\ m.sq[m.dst[i]].body = m.cs[i].body /\ m.sq[m.dst[i]].trl = m.cs[i].trl)
        THEN <<"C05.request_lost">>
@@ -73,7 +79,7 @@ AtEnd(m) ==
        THEN <<"C05.response_lost">>
   ELSE IF \E j \in Idx : m.src[j] # 0 /\ m.rr[j].rst /\ ~m.cs[m.src[j]].rst
                          /\ ~(m.cr[m.src[j]].rst \/ m.cr[m.src[j]].ended)
-       THEN <<"C05.reset_lost">>
+       THEN <<"C05.reset_lost", "server_reset">>
   ELSE <<>>
 
 Clause(m, ev) ==
@@ -81,6 +87,12 @@ Clause(m, ev) ==
     [] ev.k = "end" -> AtEnd(m)
     [] ev.k = "crashed" -> <<"C05.proxy_crashed", ev.exc>>
     [] ev.k = "peer_error" -> <<"C05.peer_protocol_error", ev.side>>
+    \* the peers of the harness never break the protocol, so nothing entitles the proxy to give up a connection
+    \* (and with it every stream on it), except that the server closed first
+    [] ev.k \in {"c_goaway", "s_goaway", "p_close"} ->
+         IF ev.k = "c_goaway" \/ (ev.k = "p_close" /\ ev.side = "c") THEN <<"C05.connection_terminated_by_proxy", "c">>
+         ELSE IF ~m.sdead THEN <<"C05.connection_terminated_by_proxy", "s">>
+         ELSE <<>>
     [] ev.k = "s_req" ->
          LET i == One(ev.ms) IN
          IF i = 0 \/ ~(ev.t \in Idx) THEN <<"C05.request_headers_mixed">>
@@ -204,7 +216,7 @@ MonStep(m, ev) ==
                     !.wit = @ \cup W(m.known /\ ev.max # 0 /\ ev.max < m.limit, "limit_lowered")
                               \cup W(m.known /\ m.waiting # <<>> /\ ev.max > m.limit, "limit_raised_with_queue")
                               \cup W(~m.known /\ Open(m) > 1, "late_settings")]
-    [] ev.k = "r_close" -> [m1 EXCEPT !.sdead = TRUE]
+    [] ev.k = "r_close" -> [m1 EXCEPT !.sdead = TRUE, !.wit = @ \cup {"server_closed"} \cup W(m.waiting # <<>>, "server_closed_with_queue")]
     [] ev.k = "c_resp" -> [m1 EXCEPT !.cr[ev.s].hdr = IF ev.own THEN 2 ELSE 1,
                                     !.wit = @ \cup W(ev.own, "proxy_error_response") \cup W(~ev.own, "response")]
     [] ev.k = "c_rdata" -> IF m.cr[ev.s].hdr = 2 THEN m1 ELSE [m1 EXCEPT !.cr[ev.s].body = @ \o ev.d]
